@@ -161,6 +161,7 @@ def do_case(ctx, inp):
         ctx.skip("variable-object"); return
     created = [snap(o) for o in live]
     leaked = [False] * len(live)
+    named_cid = [False] * len(live)  # the receiver has had an assume/evaluate call naming one of its sub-proposition ids
     names_compound = False
     for c in calls:
         if c["k"] in ("evaluate", "evalprops", "assume"):
@@ -185,11 +186,13 @@ def do_case(ctx, inp):
             if after != before:
                 ctx.fail("add-changed-an-existing-object", {"step": step, "call": c}); return
             if not isinstance(r, dict):
-                live.append(copy.deepcopy(r)); created.append(snap(r)); leaked.append(leaked[i])
+                live.append(copy.deepcopy(r)); created.append(snap(r)); leaked.append(leaked[i]); named_cid.append(named_cid[i])
                 asts.append({"c": "Stingy", "args": asts[i]["args"] + [c["rule"]], **({"id": t["id"]})})
             continue
         res = safe(lambda: perform(o, c))
         after = [snap(x) for x in live]
+        if c["k"] in ("evaluate", "evalprops", "assume") and any(a in compound_ids(t) for a in c.get("I", {})):
+            named_cid[i] = True
         # (1) the result is the model's pure function of the receiver's current state
         mo = model_op(t, c)
         if c["k"] == "ge_polyhedron" and leaked[i]:
@@ -230,7 +233,13 @@ def do_case(ctx, inp):
         fresh = build(asts[i])
         res2 = safe(lambda: perform(fresh, c))
         if res2 != res:
-            if leaked[i]:
+            if c["k"] == "to_b64" and named_cid[i] and not leaked[i] and isinstance(res, str) and isinstance(res2, str) \
+                    and snap(pg.from_b64(res)) == snap(pg.from_b64(res2)):
+                # the known leak also replaces a node's variable by a new object with the *same* bounds: the snapshot does
+                # not move, the pickle (object sharing / integer types) does.  Same class of F-C09a: a call naming a
+                # sub-proposition id of the receiver, later result on that receiver differs from a fresh object's.
+                ctx.fail("result-depends-on-history", {"step": step, "call": c, "detail": "to_b64 text differs, decoded structure equal"}, known=F_C09A)
+            elif leaked[i]:
                 ctx.fail("result-depends-on-history", {"step": step, "call": c}, known=F_C09A)
             else:
                 ctx.fail("result-depends-on-history", {"step": step, "call": c, "after_history": res, "fresh_object": res2}); return
